@@ -179,6 +179,14 @@ def parse_value(ts, ty):
                 ts.expect(',')
         if packed: ts.expect('>')
         return V('agg', ty, es)
+    if v == '<':
+        es = []
+        if not ts.accept('>'):
+            while True:
+                et = parse_type(ts); es.append(parse_value(ts, et))
+                if ts.accept('>'): break
+                ts.expect(',')
+        return V('agg', ty, es)
     if v == '[':
         es = []
         if not ts.accept(']'):
@@ -456,6 +464,7 @@ def parse_body(m, f):
         if ts.peek()[0] == 'lvar' and ts.peek(1)[1] == '=':
             res = unq(ts.next()[1]); ts.next()
         op = ts.next()[1]
+        if op in ('tail', 'musttail', 'notail'): op = ts.next()[1]
         ins = Inst(op, res)
         dm = DBG_RE.search(s)
         if dm: ins.dbg = int(dm.group(1))
